@@ -80,7 +80,8 @@ Inductive cop :=
 | CClear (p : list pstep) (k : pstep) (st : Z)
 | CPool (same : Z)
 | CLoadAt (p : list pstep) (rec : bool) (st : Z)
-| CSetErr (p : list pstep) (k : pstep) (code : Z) (st ex cap : Z).   (* store the ERROR node of a failed lookup as a child *)
+| CSetErr (p : list pstep) (k : pstep) (code : Z) (st ex cap : Z)   (* store the ERROR node of a failed lookup as a child *)
+| CRetain (kept changed : Z).   (* earlier Marshal results, held as the very slices returned, re-compared with private copies *)
 
 Definition parse_key (fs : list field) : option (pstep * list field) :=
   match parse_steps 1 fs with Some ([k], r) => Some (k, r) | _ => None end.
@@ -128,6 +129,9 @@ Fixpoint parse_ops (n : nat) (fs : list field) : option (list cop) :=
         end
       | None => None
       end
+    | FZ 10 :: r0 =>  (* MarshalIntoBuffer into a caller buffer of the given initial capacity: same observation as Marshal *)
+      match parse_path r0 with Some (p, FZ _ :: FZ st :: FB out :: r) => cont (CMarshal p st out) r | _ => None end
+    | FZ 11 :: FZ kept :: FZ changed :: r => cont (CRetain kept changed) r
     | FZ 6 :: FZ same :: r => cont (CPool same) r
     | FZ 7 :: r0 =>
       match parse_path r0 with Some (p, FZ rec :: FZ st :: r) => cont (CLoadAt p (negb (rec =? 0)) st) r | _ => None end
@@ -189,6 +193,7 @@ Definition spec_step (defaults ns : bool) (idx : Z) (s : sstate) (o : cop) : ver
   let keep := (VOk, s) in
   match o with
   | CPool _ => (VOk, {| s_dom := None; s_drift := s_drift s |})
+  | CRetain kept changed => (expect (code + 18) (changed =? 0) [FZ kept; FZ 0], s)   (* results are the caller's: never overwritten later *)
   | CLoad rec t bs st =>
     match safe_decode t bs with
     | None => (VSkip, s)
@@ -416,6 +421,7 @@ Definition sim_step (o : sopts) (root : pn) (c : cop) : res (cop * pn) :=
                 | None => bad 4
                 end)
       bad
+  | CRetain kept _ => ROk (CRetain kept 0, root)
   | CSetErr p k0 ecode _ _ cap =>
     let bad st := ROk (CSetErr p k0 ecode st 0 cap, root) in
     nav_fail (sim_nav o root (map pkey_of_step p))
@@ -483,6 +489,7 @@ Definition cop_eqb (a b : cop) : bool :=
   | CPool _, CPool _ => true
   | CLoadAt _ _ s1, CLoadAt _ _ s2 => s1 =? s2
   | CSetErr _ _ _ s1 e1 _, CSetErr _ _ _ s2 e2 _ => (s1 =? s2) && (e1 =? e2)
+  | CRetain _ c1, CRetain _ c2 => c1 =? c2
   | _, _ => false
   end.
 
